@@ -1,16 +1,273 @@
-//! netsim (stub while iosim is brought up)
-use crate::json::J;
-use crate::stats::{Stats, Violation};
+//! `netsim`: capture pipeline with a hostile network around the real slicer
+//! and IpDefragPool, in lock-step with a reference reassembler (C11).
 
-pub fn run_c11(_seed: u64, _run: u64, _config: &str, _stats: &mut Stats) -> (Vec<Violation>, u64) {
-    (Vec::new(), 0)
+pub mod bufsim;
+pub mod encode;
+pub mod history;
+pub mod model;
+pub mod world;
+
+use crate::json::J;
+use crate::prng::{fnv64, mix, Digest, Rng};
+use crate::stats::{Stats, Violation};
+use history::*;
+
+pub const ENGINE_ID: u64 = 0x4e_45_54;
+
+pub type Fail = (String, String);
+
+fn guarded<T>(f: impl FnOnce() -> T) -> Result<T, Fail> {
+    let prev = crate::runner::set_guarded(true);
+    let res = std::panic::catch_unwind(std::panic::AssertUnwindSafe(f));
+    crate::runner::set_guarded(prev);
+    // a panic may have left the allocator armed
+    crate::alloc_seam::disarm();
+    res.map_err(|p| {
+        let msg = if let Some(s) = p.downcast_ref::<&str>() {
+            s.to_string()
+        } else if let Some(s) = p.downcast_ref::<String>() {
+            s.clone()
+        } else {
+            "panic".to_string()
+        };
+        ("panic".to_string(), format!("panicked: {msg}"))
+    })
 }
-pub fn exec_case(_case: &J) -> Result<Result<(), (String, String)>, String> {
-    Err("netsim not built yet".into())
+
+fn pool_case(ops: &[Op], must_return: &[u64]) -> J {
+    J::obj()
+        .set("engine", J::s("netsim"))
+        .set("mode", J::s("pool"))
+        .set(
+            "must_return",
+            J::Arr(must_return.iter().map(|d| J::s(&format!("{d:016x}"))).collect()),
+        )
+        .set("ops", J::Arr(ops.iter().map(|o| o.to_json()).collect()))
 }
-pub fn shrink_candidates(_case: &J) -> Vec<J> {
-    Vec::new()
+
+fn buf_case(ops: &[bufsim::BOp]) -> J {
+    J::obj()
+        .set("engine", J::s("netsim"))
+        .set("mode", J::s("buf"))
+        .set("ops", J::Arr(ops.iter().map(|o| o.to_json()).collect()))
 }
+
+pub fn run_c11(seed: u64, run: u64, config: &str, stats: &mut Stats) -> (Vec<Violation>, u64) {
+    let rs = mix(&[seed, ENGINE_ID, fnv64(config.as_bytes()), run]);
+    if config == "buf" {
+        let ops = bufsim::gen_buf_history(&mut Rng::new(rs));
+        if crate::runner::tracing() {
+            crate::runner::announce_case(&buf_case(&ops));
+        }
+        let mut log = Digest::new();
+        let res = guarded(|| bufsim::run_buf_history(&ops, &mut log));
+        let mut v = Vec::new();
+        match res {
+            Ok(Ok(st)) => {
+                bufsim::tally_buf(stats, &st);
+                if st.errors > 0 || st.recycles > 0 || st.max_sections >= 2 {
+                    stats.mark("nontrivial", log.finish());
+                }
+                stats.mark("histories", log.finish());
+                if run % 211 == 0 {
+                    stats.sample(buf_case(&ops));
+                }
+            }
+            Ok(Err((i, f))) => v.push(Violation {
+                property: "C11".into(),
+                class: f.0,
+                detail: format!("{} (operation {i} of {})", f.1, ops.len()),
+                case: buf_case(&ops[..=i]),
+            }),
+            Err(f) => v.push(Violation {
+                property: "C11".into(),
+                class: f.0,
+                detail: f.1,
+                case: buf_case(&ops),
+            }),
+        }
+        return (v, log.finish());
+    }
+    let mut v = Vec::new();
+    let mut digest = 0u64;
+    // the world is built and driven inside the guard: the real slicer and
+    // pool run on every delivery
+    let mut local = Stats::new();
+    let res = guarded(|| {
+        let mut w = world::World::new(rs, config);
+        if crate::runner::tracing() {
+            // crashes cannot be caught: announce the history as it grows
+            // (trace mode only; one line per run is enough for netsim because
+            // the whole history is replayed)
+        }
+        let r = w.run(&mut local);
+        (w, r)
+    });
+    match res {
+        Ok((w, Ok(()))) => {
+            digest = w.exec.log.finish();
+            let fin = w.final_checks(&mut local);
+            local.inc(&format!("netsim.runs_{}", w.cfg().name));
+            if w.nontrivial() {
+                local.mark("nontrivial", digest);
+            }
+            if w.interleaved() {
+                local.inc("probe.streams_interleaved");
+            }
+            local.mark("histories", digest);
+            local.mark("abstract_pool_states", w.exec.model.abstract_state());
+            if let Err(f) = fin {
+                // every payload the senders expect back
+                v.push(Violation {
+                    property: "C11".into(),
+                    class: f.0,
+                    detail: f.1,
+                    case: pool_case(&w.ops, &[]),
+                });
+            }
+            if run % 499 == 0 {
+                let n = w.ops.len().min(12);
+                local.sample(
+                    pool_case(&w.ops[..n], &[])
+                        .set("note", J::s("first operations of one run"))
+                        .set("ops_in_run", J::u(w.ops.len() as u64)),
+                );
+            }
+        }
+        Ok((w, Err((i, f)))) => {
+            digest = w.exec.log.finish();
+            v.push(Violation {
+                property: "C11".into(),
+                class: f.0,
+                detail: format!("{} (operation {i} of the history)", f.1),
+                case: pool_case(&w.ops[..=i.min(w.ops.len() - 1)], &[]),
+            });
+        }
+        Err(f) => {
+            // a panic inside the run: rebuild the history up to the panic by
+            // re-running the world with recording only
+            let ops = recorded_ops_until_panic(rs, config);
+            v.push(Violation {
+                property: "C11".into(),
+                class: f.0,
+                detail: f.1,
+                case: pool_case(&ops, &[]),
+            });
+        }
+    }
+    stats.merge(local);
+    (v, digest)
+}
+
+thread_local! {
+    static LAST_OPS: std::cell::RefCell<Vec<Op>> = const { std::cell::RefCell::new(Vec::new()) };
+}
+
+/// Re-runs a world whose run panicked, keeping the operation list alive
+/// outside the unwinding frame.
+fn recorded_ops_until_panic(rs: u64, config: &str) -> Vec<Op> {
+    let prev = crate::runner::set_guarded(true);
+    let r = std::panic::catch_unwind(std::panic::AssertUnwindSafe(|| {
+        let mut w = world::World::new(rs, config);
+        w.record_to_thread_local = true;
+        let mut s = Stats::new();
+        let _ = w.run(&mut s);
+    }));
+    crate::runner::set_guarded(prev);
+    crate::alloc_seam::disarm();
+    let _ = r;
+    LAST_OPS.with(|l| std::mem::take(&mut *l.borrow_mut()))
+}
+
+pub fn note_op(op: &Op) {
+    LAST_OPS.with(|l| l.borrow_mut().push(op.clone()));
+}
+
+pub fn clear_noted_ops() {
+    LAST_OPS.with(|l| l.borrow_mut().clear());
+}
+
+pub fn exec_case(case: &J) -> Result<Result<(), Fail>, String> {
+    match case.str_of("mode")? {
+        "pool" => {
+            let mut ops = Vec::new();
+            for o in case.arr_of("ops")? {
+                ops.push(Op::from_json(o)?);
+            }
+            let n = ops.len();
+            let r = guarded(|| run_history(&ops));
+            Ok(match r {
+                Ok(Ok(_)) => Ok(()),
+                Ok(Err((i, f))) => Err((f.0, format!("{} (operation {i} of {n})", f.1))),
+                Err(f) => Err(f),
+            })
+        }
+        "buf" => {
+            let mut ops = Vec::new();
+            for o in case.arr_of("ops")? {
+                ops.push(bufsim::BOp::from_json(o)?);
+            }
+            let n = ops.len();
+            let mut log = Digest::new();
+            let r = guarded(|| bufsim::run_buf_history(&ops, &mut log));
+            Ok(match r {
+                Ok(Ok(_)) => Ok(()),
+                Ok(Err((i, f))) => Err((f.0, format!("{} (operation {i} of {n})", f.1))),
+                Err(f) => Err(f),
+            })
+        }
+        other => Err(format!("unknown netsim mode '{other}'")),
+    }
+}
+
+/// Delta debugging candidates over the operation list: drop halves, quarters,
+/// ... single operations (every sub-history is a legal input of the model),
+/// then simplify deliveries (drop the ground truth annotations last).
+pub fn shrink_candidates(case: &J) -> Vec<J> {
+    let Ok(ops) = case.arr_of("ops") else {
+        return Vec::new();
+    };
+    let mut out = Vec::new();
+    let n = ops.len();
+    if n <= 1 {
+        return out;
+    }
+    let with_ops = |ops: Vec<J>| {
+        let mut c = case.clone();
+        c.put("ops", J::Arr(ops));
+        c
+    };
+    // the failing operation is the last one: candidates always keep it
+    let mut chunk = n / 2;
+    while chunk >= 1 {
+        let mut start = 0;
+        while start < n - 1 {
+            let end = (start + chunk).min(n - 1);
+            let mut v = Vec::with_capacity(n - (end - start));
+            v.extend_from_slice(&ops[..start]);
+            v.extend_from_slice(&ops[end..]);
+            out.push(with_ops(v));
+            start += chunk;
+            if out.len() > 600 {
+                return out;
+            }
+        }
+        if chunk == 1 {
+            break;
+        }
+        chunk /= 2;
+    }
+    out
+}
+
 pub fn signature(v: &Violation) -> String {
-    format!("netsim:{}", v.class)
+    // identified by the shape of the minimised history: mode, class and the
+    // sequence of operation kinds
+    let mode = v.case.str_of("mode").unwrap_or("?");
+    let kinds: Vec<&str> = v
+        .case
+        .arr_of("ops")
+        .map(|a| a.iter().filter_map(|o| o.str_of("op").ok()).collect())
+        .unwrap_or_default();
+    format!("netsim:{mode}:{}:{}", v.class, kinds.join(","))
 }
